@@ -1,4 +1,158 @@
 (* C15 - property theorems only. *)
 From HV Require Import Prelude Stats C15_Model C15_Check C15_Proofs.
-Theorem C15_placeholder : True. Proof. exact placeholder_true. Qed.
-Print Assumptions C15_placeholder.
+
+(* Column names written by Phenotypes.write (after the fix) are pairwise distinct,
+   as many as the input names, each the input name itself or that name with a
+   "-<number>" suffix, and unchanged when the input names were already distinct. *)
+Theorem C15_unique_names_nodup : forall names,
+  NoDup (unique_names names)
+  /\ length (unique_names names) = length names
+  /\ Forall2 derived_from names (unique_names names)
+  /\ (NoDup names -> unique_names names = names).
+Proof. exact unique_names_nodup_lemma. Qed.
+Print Assumptions C15_unique_names_nodup.
+
+(* the suffix renderer (Python's str(int)) is injective: no contract needed *)
+Theorem C15_dec_injective : forall a b, dec a = dec b -> a = b.
+Proof. exact dec_inj. Qed.
+Print Assumptions C15_dec_injective.
+
+(* the pinned algorithm collides on (a, a, a-1); the repaired one does not *)
+Example C15_legacy_suffix_collision_refuted :
+  legacy_unique_names [a_; a_; suffixed a_ 1] = [a_; suffixed a_ 1; suffixed a_ 1]
+  /\ ~ NoDup (legacy_unique_names [a_; a_; suffixed a_ 1])
+  /\ unique_names [a_; a_; suffixed a_ 1] = [a_; suffixed a_ 1; suffixed (suffixed a_ 1) 1].
+Proof. exact legacy_suffix_collision_refuted_lemma. Qed.
+Print Assumptions C15_legacy_suffix_collision_refuted.
+
+(* write then read, for every codec with parse (fmt x) = Some x: the same samples,
+   the suffixed names, the same cells, no error message *)
+Theorem C15_pheno_roundtrip :
+  forall (tok fl : Type) (text : tok -> list Z) (parse : tok -> option fl)
+         (fmt : fl -> tok) (word : list Z -> tok),
+  (forall x, parse (fmt x) = Some x) -> (forall s, text (word s) = s) ->
+  forall t : table fl,
+  length (t_samples t) = length (t_data t) -> t_data t <> [] -> t_names t <> [] ->
+  rectangular (t_data t) = true ->
+  pheno_read tok fl text parse None (pheno_write tok fl fmt word t)
+  = Ok (mkt (t_samples t) (unique_names (t_names t)) (t_data t), 0).
+Proof. exact pheno_roundtrip_lemma. Qed.
+Print Assumptions C15_pheno_roundtrip.
+
+(* row skipping never shifts other rows or columns: for every file body without
+   blank lines and every sample filter, the records are exactly the selected rows
+   whose cells all parse - in file order, each with its own first field - and one
+   error is reported per skipped row ... *)
+Theorem C15_row_skipping_exact :
+  forall (tok fl : Type) (text : tok -> list Z) (parse : tok -> option fl) sel ls,
+  (forall l, In l ls -> l <> []) ->
+  iterate tok fl text parse sel ls =
+    Ok (somes (map (row_rec tok fl text parse) (filter (row_sel tok text sel) ls)),
+        nones (map (row_rec tok fl text parse) (filter (row_sel tok text sel) ls))).
+Proof. exact iterate_spec. Qed.
+Print Assumptions C15_row_skipping_exact.
+
+(* the whole reader: any number of leading comment lines is skipped, the names come
+   from the header, the records are the selected numeric rows of the body *)
+Theorem C15_read_spec :
+  forall (tok fl : Type) (text : tok -> list Z) (parse : tok -> option fl) sel comments header body,
+  Forall (fun l => comment_line tok text l = true) comments ->
+  comment_line tok text header = false -> (2 <= length header)%nat ->
+  (forall l, In l body -> l <> []) ->
+  let recs := somes (map (row_rec tok fl text parse) (filter (row_sel tok text sel) body)) in
+  recs <> [] -> rectangular (map snd recs) = true ->
+  pheno_read tok fl text parse sel (comments ++ header :: body)
+  = Ok (mkt (map fst recs) (map text (tl header)) (map snd recs),
+        nones (map (row_rec tok fl text parse) (filter (row_sel tok text sel) body))).
+Proof. exact pheno_read_spec. Qed.
+Print Assumptions C15_read_spec.
+
+(* ... and within a kept row, value j is the parse of cell j *)
+Theorem C15_cells_keep_their_columns :
+  forall (tok fl : Type) (parse : tok -> option fl) cs vs,
+  parse_cells tok fl parse cs = Some vs <-> map parse cs = map Some vs.
+Proof. exact parse_cells_spec. Qed.
+Print Assumptions C15_cells_keep_their_columns.
+
+Theorem C15_row_skipped_iff_bad_cell :
+  forall (tok fl : Type) (parse : tok -> option fl) cs,
+  parse_cells tok fl parse cs = None <-> exists c, In c cs /\ parse c = None.
+Proof. exact parse_cells_none. Qed.
+Print Assumptions C15_row_skipped_iff_bad_cell.
+
+Theorem C15_append_spec :
+  forall (fl key : Type) nm col (t : tab fl key),
+  length col = length (data t) ->
+  exists t', append fl key false nm col t = Ok t'
+    /\ samples t' = samples t /\ names t' = names t ++ [nm]
+    /\ length (data t') = length (data t)
+    /\ forall i row v, nth_error (data t) i = Some row -> nth_error col i = Some v ->
+                       nth_error (data t') i = Some (row ++ [v]).
+Proof. exact append_spec_lemma. Qed.
+Print Assumptions C15_append_spec.
+
+(* subsetting returns the requested (and present) samples in the requested order,
+   each with the row stored under that sample *)
+Theorem C15_subset_spec_samples :
+  forall (fl key : Type) (key_eqb : key -> key -> bool) (d0 : fl) (k0 : key) req (t t' : tab fl key),
+  subset fl key key_eqb d0 k0 (Some req) None t = Ok t' ->
+  names t' = names t
+  /\ Forall2 (fun k s => exists i, index_of key key_eqb k (samples t) 0 = Some i /\ s = nth i (samples t) k0)
+             (filter (present key key_eqb (samples t)) req) (samples t')
+  /\ Forall2 (fun k row => exists i, index_of key key_eqb k (samples t) 0 = Some i /\ row = nth i (data t) [])
+             (filter (present key key_eqb (samples t)) req) (data t').
+Proof. exact subset_samples_spec. Qed.
+Print Assumptions C15_subset_spec_samples.
+
+Theorem C15_subset_spec_names :
+  forall (fl key : Type) (key_eqb : key -> key -> bool) (d0 : fl) (k0 : key) req (t t' : tab fl key),
+  subset fl key key_eqb d0 k0 None (Some req) t = Ok t' ->
+  samples t' = samples t
+  /\ Forall2 (fun k n => exists i, index_of key key_eqb k (names t) 0 = Some i /\ n = nth i (names t) k0)
+             (filter (present key key_eqb (names t)) req) (names t')
+  /\ Forall2 (fun row row' =>
+        Forall2 (fun k x => exists i, index_of key key_eqb k (names t) 0 = Some i /\ x = nth i row d0)
+                (filter (present key key_eqb (names t)) req) row')
+      (data t) (data t').
+Proof. exact subset_names_spec. Qed.
+Print Assumptions C15_subset_spec_names.
+
+(* index_of finds the first position holding the key; None iff the key is absent *)
+Theorem C15_index_of_first :
+  forall (key : Type) (key_eqb : key -> key -> bool),
+  (forall a b, key_eqb a b = true <-> a = b) ->
+  forall k l s i, index_of key key_eqb k l s = Some i ->
+  (s <= i)%nat /\ nth_error l (i - s) = Some k /\ forall j, (j < i - s)%nat -> nth_error l j <> Some k.
+Proof. exact index_of_spec. Qed.
+Print Assumptions C15_index_of_first.
+
+Theorem C15_index_of_absent :
+  forall (key : Type) (key_eqb : key -> key -> bool),
+  (forall a b, key_eqb a b = true <-> a = b) ->
+  forall k l s, index_of key key_eqb k l s = None <-> ~ In k l.
+Proof. exact index_of_none. Qed.
+Print Assumptions C15_index_of_absent.
+
+(* check_missing raises iff some sample holds -9 and discarding was not asked;
+   with discarding it keeps exactly the (sample, row) pairs without -9, in order *)
+Theorem C15_check_missing_spec :
+  forall (fl key : Type) (is9 : fl -> bool) discard (t : tab fl key),
+  let holding := existsb (row_missing fl is9) (data t) in
+  match check_missing fl key is9 discard t with
+  | Err _ => holding = true /\ discard = false
+  | Ok t' =>
+      names t' = names t
+      /\ (holding = false -> t' = t)
+      /\ (holding = true -> discard = true
+          /\ combine (samples t') (data t')
+             = filter (fun '(s, row) => negb (row_missing fl is9 row)) (combine (samples t) (data t)))
+  end.
+Proof. exact check_missing_spec_lemma. Qed.
+Print Assumptions C15_check_missing_spec.
+
+(* soundness of the boolean name check evaluated on the implementation's header *)
+Theorem C15_names_check_sound : forall inp out,
+  names_unique_ok inp out = true ->
+  length inp = length out /\ NoDup out /\ (NoDup inp -> out = inp).
+Proof. exact names_unique_ok_sound. Qed.
+Print Assumptions C15_names_check_sound.
